@@ -21,7 +21,7 @@ IPV6 = ["::1", "::", "2001:db8::1", "2001:DB8:0:0:0:0:0:1", "1:2:3:4:5:6:7:8", "
 IDN = ["ü.com", "例え.jp", "bücher.example", "A_B.ü.com", "ß.de", "İ.com", "a／b", "ｅxample.com", "xn--a.é", "a­b.é", "é" * 64 + ".com", "１.2.3.4", "٣",
        "user＠example.com", "a：b.com", "a﹕80", "a﹫b", "x℀y.com", "a＃b", "a？b", "good.com＠evil.org",
        # an IDN whose LAST label is ASCII and ends in a digit (looks like the tail of an IPv4 address to a careless test)
-       "bücher.h1", "ü.com2", "例え.x9", "xn--bcher-kva.h1", "é.1a2"]
+       "bücher.h1", "ü.com2", "例え.x9", "xn--bcher-kva.h1", "é.1a2", "i❤.ws", "☃.net", "my_svc.bücher.de", "xn--i-7iq.ws"]
 PORTS = ["", ":", ":0", ":80", ":443", ":21", ":8080", ":65535", ":65536", ":abc", ":+1", ":1_0", ": 80", ":-1", ":٣", ":80:81", ":00080"]
 PATHS = ["", "/", "/a", "/a/b/", "/a/../b", "/./a", "/a/.", "/..", "/a/%2e%2E/b", "/a%2Fb", "/a b", "/é", "/%C3%A9", "/a;b=c", "/a:b@c",
          "a", "a/b", "../a", "./a", "a:b", "a%3Ab", "//a", "/a//b", "/%", "/%zz", "/a+b", "/a%2Bb", "/.a/b.", "/...", "/a.b.c", "/a.", "/.tar.gz",
